@@ -64,6 +64,9 @@ WholeInput == TraceLog[l0]["in"]
 AdmNow == IF len > 0 /\ refusals = 0 /\ WholeInput # <<>> THEN Admissible(EventsOfBytes(WholeInput), TraceL, TRUE) ELSE
           IF len = 0 THEN {[ok |-> FALSE, code |-> "nodata", pos |-> 0, tree |-> <<>>]}
           ELSE IF refusals > 0 THEN {[ok |-> FALSE, code |-> "mem", pos |-> pos, tree |-> <<>>]}
+               \* (a head that is illegal where it stands may be rejected as such before any allocation is attempted:
+               \*  e.g. an array head declaring 2^32 entries inside a chunked string, by a decoder that reports eagerly)
+               \cup {a \in Admissible(EvsNow, TraceL, pos >= len) : ~a.ok /\ a.code = "syntax" /\ a.pos = pos}
           ELSE Admissible(EvsNow, TraceL, pos >= len)
 OkOf(adm) == {a \in adm : a.ok}
 RetJudge2(ln, adm) == RetJudge(ln, adm, OkOf(adm))
